@@ -8,6 +8,7 @@ RULE = ("deterministic schedules compared with the transition system: posts from
         "which arms and disarms a timer between polls; 6000-60000 rounds of a post racing the dispatch of the previous one while the loop blocks in epoll_wait; a watchdog (3 s) reports a blocked Post or poll as DEADLOCK. "
         "distinct = (queue length, batch, eventfd counter, pending, executed) model states; non-trivial = more than one "
         "handler queued")
+UNGATED_STREAMS = {"concurrent"}   # races: a sighting is not expected to repeat on every re-run
 EXHAUSTIVE = {"quick": False, "thorough": False}
 CLAUSES = {"1": "a handler ran twice or a handler ran that was never posted",
            "2": "a handler ran on a goroutine other than the one running the loop",
